@@ -1,5 +1,196 @@
+import NessaiVerif.Model.Reparam
 import NessaiVerif.Driver.Parse
-/- stub: replaced by the owner of this area -/
+/-
+Line protocol of the reparameterisation area (token `rp`), executed at `K := Rat`.
+
+  rp util z2o|iz2o|m2o|im2o <x> <xmin> <xmax>            -> ok <value> <J>
+  rp drb <pmin> <pmax> <xmin> <xmax> <invert> <inversion 0/1> <offset> <r0> <r1>
+                                                         -> ok <lo> <hi> | err=value
+  rp run <reverse 0/1> <groups> <x>                      -> ok xp=[..] jf=<J> xb=[..] ji=<J> info=[..] | err=<enum>
+      groups = [[spec,..],..]   one inner list per reparameterisation object (its parameter loop)
+      x      = [v0,v1,..]       the point; parameter i reads x[i] and writes x_prime[i]
+      spec   = [null,i]
+             | [ss,i,scale|none,shift|none,estScale,estShift,data|none,witness|none]
+             | [rtb,i,p0,p1,rb|none,inv,objInv,detect,offset,update,pre|none,post|none,postNamedLog,prior,data|none,test,neg]
+        rb/pre/post = [a,b]; inv = none|split|duplicate; test = unset|off|lower|upper|both|other;
+        data = [..] (points handed to update() before the call); neg = sign bit of this point.
+      info: per spec  null | ss:<scale>:<shift> | rtb:<b0>:<b1>:<offset>:<factor>:<shift>:<pb>
+            with pb = none | err | <lo>:<hi>  (prime prior bounds after the forward call)
+      xb is the result of the inverse applied to a zero-initialised x and the forward x_prime.
+-/
 namespace NessaiVerif.Driver.Reparam
-def handle (_toks : List String) : String := "bad-op"
+open NessaiVerif NessaiVerif.Parse NessaiVerif.Reparam
+
+abbrev Vec := Nat → Rat
+abbrev R := Reparam.Reparam Vec Vec Rat
+
+def showErr : Err → String
+  | .runtime => "err=runtime"
+  | .attr => "err=attr"
+  | .value => "err=value"
+
+def parseEdge? (s : String) : Option Edge :=
+  match s with
+  | "unset" => some .unset | "off" => some .off | "lower" => some .lower
+  | "upper" => some .upper | "both" => some .both | "other" => some .other
+  | _ => none
+
+def parseInv? (s : String) : Option (Option InvType) :=
+  match s with
+  | "none" => some none | "split" => some (some .split) | "duplicate" => some (some .duplicate)
+  | _ => none
+
+def parsePair? (s : String) : Option (Rat × Rat) :=
+  match parseList? parseRat? s with
+  | some [a, b] => some (a, b)
+  | _ => none
+
+def parseHook? (s : String) : Option (Option (Hook Rat)) :=
+  if s == "none" then some none else
+  match parsePair? s with
+  | some (a, b) => some (some (Hook.affine a b))
+  | none => none
+
+structure Built where
+  rep : R
+  info : String
+
+def showOR : Option Rat → String
+  | some r => showRat r
+  | none => "none"
+
+def buildSpec (toks : List String) : Option (Except Err Built) :=
+  match toks with
+  | ["null", i] => do
+    let i ← parseNat? i
+    pure (.ok ⟨nullReparam i, "null"⟩)
+  | ["ss", i, scale, shift, es, esh, data, wit] => do
+    let i ← parseNat? i
+    let scale ← parseOpt? parseRat? scale
+    let shift ← parseOpt? parseRat? shift
+    let es ← parseBool? es
+    let esh ← parseBool? esh
+    let data ← parseOpt? (parseList? parseRat?) data
+    let wit ← parseOpt? parseRat? wit
+    match ssInit scale shift es esh with
+    | .error e => pure (.error e)
+    | .ok r0 =>
+      let r? : Option (SS Rat) := match data with
+        | some d => ssUpdate r0 d (wit.getD 0)
+        | none => some r0
+      match r? with
+      | none => pure (.error .value)
+      | some r =>
+        match ssFwd r 0, ssInv r 0 with
+        | .ok _, .ok _ =>
+          let f : Rat → Rat × Rat := fun x => match ssFwd r x with | .ok v => v | .error _ => (0, 0)
+          let g : Rat → Rat × Rat := fun x => match ssInv r x with | .ok v => v | .error _ => (0, 0)
+          pure (.ok ⟨ofScalar i i f g, s!"ss:{showOR r.scale}:{showOR r.shift}"⟩)
+        | .error e, _ => pure (.error e)
+        | _, .error e => pure (.error e)
+  | ["rtb", i, p0, p1, rb, inv, oinv, det, off, upd, pre, post, plog, prior, data, test, neg] => do
+    let i ← parseNat? i
+    let p0 ← parseRat? p0
+    let p1 ← parseRat? p1
+    let rb ← parseOpt? parsePair? rb
+    let inv ← parseInv? inv
+    let oinv ← parseBool? oinv
+    let det ← parseBool? det
+    let off ← parseBool? off
+    let upd ← parseBool? upd
+    let pre ← parseHook? pre
+    let post ← parseHook? post
+    let plog ← parseBool? plog
+    let prior ← parseBool? prior
+    let data ← parseOpt? (parseList? parseRat?) data
+    let test ← parseEdge? test
+    let neg ← parseBool? neg
+    match rtbInit p0 p1 rb inv oinv det off upd pre post plog prior with
+    | .error e => pure (.error e)
+    | .ok r0 =>
+      let r1 := match data with
+        | some d => rtbUpdate r0 d
+        | none => r0
+      -- update_prime_prior_bounds runs inside update(): a ValueError there aborts the call
+      -- (set_bounds at construction does the same)
+      match rtbPrimeBounds r0, rtbPrimeBounds r1 with
+      | some none, _ => pure (.error .value)
+      | _, some none => pure (.error .value)
+      | _, _ =>
+        let r := rtbDetect r1 test
+        let pb := match rtbPrimeBounds r with
+          | none => "none"
+          | some none => "err"
+          | some (some (lo, hi)) => s!"{showRat lo}:{showRat hi}"
+        pure (.ok ⟨ofScalar i i (rtbFwd r neg) (rtbInv r),
+          s!"rtb:{showRat r.b0}:{showRat r.b1}:{showRat r.offset}:{showRat r.factor}:{showRat r.shift}:{pb}"⟩)
+  | _ => none
+
+def buildGroup (s : String) : Option (Except Err (R × List String)) := do
+  let specs ← listBody? s
+  let built ← specs.mapM fun sp => do
+    let toks ← listBody? sp
+    buildSpec toks
+  let rec collect : List (Except Err Built) → Except Err (List Built)
+    | [] => .ok []
+    | .error e :: _ => .error e
+    | .ok b :: rest => match collect rest with
+      | .ok bs => .ok (b :: bs)
+      | .error e => .error e
+  match collect built with
+  | .error e => pure (.error e)
+  | .ok bs => pure (.ok (seq (bs.map (·.rep)), bs.map (·.info)))
+
+def vecOf (xs : List Rat) : Vec := fun i => xs.getD i 0
+
+def handle (toks : List String) : String :=
+  match toks with
+  | ["util", which, x, a, b] =>
+    match parseRat? x, parseRat? a, parseRat? b with
+    | some x, some a, some b =>
+      let r : Option (Rat × Rat) := match which with
+        | "z2o" => some (rescaleZeroToOne x a b)
+        | "iz2o" => some (inverseRescaleZeroToOne x a b)
+        | "m2o" => some (rescaleMinusOneToOne x a b)
+        | "im2o" => some (inverseRescaleMinusOneToOne x a b)
+        | _ => none
+      match r with
+      | some (v, j) => s!"ok {showRat v} {showRat j}"
+      | none => "bad-op"
+    | _, _, _ => "bad-op"
+  | ["drb", pmin, pmax, xmin, xmax, invert, inversion, offset, r0, r1] =>
+    match parseRat? pmin, parseRat? pmax, parseRat? xmin, parseRat? xmax, parseEdge? invert,
+          parseBool? inversion, parseRat? offset, parseRat? r0, parseRat? r1 with
+    | some pmin, some pmax, some xmin, some xmax, some invert, some inversion, some offset, some r0, some r1 =>
+      match determineRescaledBounds pmin pmax xmin xmax invert inversion offset r0 r1 with
+      | some (lo, hi) => s!"ok {showRat lo} {showRat hi}"
+      | none => "err=value"
+    | _, _, _, _, _, _, _, _, _ => "bad-op"
+  | ["run", rev, groups, x] =>
+    match parseBool? rev, listBody? groups, parseList? parseRat? x with
+    | some rev, some gs, some xs =>
+      match gs.mapM buildGroup with
+      | none => "bad-op"
+      | some built =>
+        let rec collect : List (Except Err (R × List String)) → Except Err (List (R × List String))
+          | [] => .ok []
+          | .error e :: _ => .error e
+          | .ok b :: rest => match collect rest with
+            | .ok bs => .ok (b :: bs)
+            | .error e => .error e
+        match collect built with
+        | .error e => showErr e
+        | .ok bs =>
+          let c : R := combined (bs.map (·.1)) rev
+          let n := xs.length
+          let x := vecOf xs
+          let s := c.fwd (x, vecOf [], 1)
+          let t := c.inv (vecOf [], s.2.1, 1)
+          let idx := List.range n
+          let info := (bs.map (·.2)).flatten
+          s!"ok xp={showList showRat (idx.map s.2.1)} jf={showRat s.2.2} " ++
+          s!"xb={showList showRat (idx.map t.1)} ji={showRat t.2.2} info=[{";".intercalate info}]"
+    | _, _, _ => "bad-op"
+  | _ => "bad-op"
+
 end NessaiVerif.Driver.Reparam
